@@ -55,10 +55,12 @@ def documented_names():
 
 # ---- part 1: dispatch ---------------------------------------------------------------------------
 
-def drive(cols, frame, label, heur, target_only):
+def drive(cols, frame, label, heur, target_only, fresh=True):
     import numpy as np
     import pandas as pd
     cr, cu, tr, ie = PL.real_modules()
+    if fresh:
+        PL.fresh_state()
     cr.GLOBAL_PRIOR_COMB_COUNTS.clear()
     calls = []
 
@@ -189,6 +191,42 @@ def run_dispatch(job):
     return hutil.run_symx(job, setup, body)
 
 
+def run_twobatch(job):
+    """a history of two mini-batches in one process: the second batch's scores must be the heuristic on the second batch's own columns"""
+    st = {}
+    HE = ['MI-numba-randomized', 'max-value-coverage', 'MI-numba-3mr']
+    P2 = ['a', 'b', 'c', 'd']
+
+    def setup(ctx):
+        st['cells'] = [z3.Int(f'c{i}') for i in range(4)]
+        for v in st['cells']:
+            ctx.assume(v >= 0, v < len(P2))
+        st['h'] = z3.Int('h')
+        ctx.assume(st['h'] >= 0, st['h'] < len(HE))
+        for k, v in job['pins'].items():
+            ctx.assume(z3.Int(k) == v)
+
+    def body(ctx, out):
+        heur = HE[int(SInt(st['h'], 0, len(HE) - 1))]
+        fa2 = [P2[int(SInt(v, 0, len(P2) - 1))] for v in st['cells']]
+        cols = ['fa', 'fb', 'label']
+        f1 = [['a', 'm', 'x'], ['b', 'm', 'y'], ['a', 'n', 'x'], ['b', 'n', 'y']]
+        f2 = [[fa2[i], ['n', 'o', 'n', 'o'][i], ['x', 'y', 'y', 'x'][i]] for i in range(4)]
+        w = {'cond': 'two-batches', 'cols': cols, 'frame1': f1, 'frame': f2, 'heur': heur, 'target_only': False}
+        try:
+            drive(cols, f1, 'label', heur, False, fresh=True)
+            trip, calls, warn = drive(cols, f2, 'label', heur, False, fresh=False)
+            probs = check_dispatch(trip, calls, warn, cols, f2, 'label', heur)
+        except Exception as e:
+            probs = [f'{type(e).__name__}: {e}']
+        if probs or out.twin:
+            out.concrete_fail(w, probs[0] if probs else 'twin')
+        else:
+            out.concrete_ok()
+        out.sample({'heuristic': heur, 'second batch fa': fa2})
+    return hutil.run_symx(job, setup, body)
+
+
 # ---- part 2: max_pair_coverage, symbolically ----------------------------------------------------
 
 class NpInt(SInt):
@@ -303,6 +341,8 @@ def jobs(tier):
     for h in range(len(names)):
         for lpos in range(3):
             out.append({'cond': 'dispatch', 'names': names, 'pins': {'h': h, 'lpos': lpos}, 'weight': 600, 'label': f'{names[h]},label@{lpos}'})
+    for h in range(3):
+        out.append({'cond': 'two-batches', 'pins': {'h': h}, 'weight': 300, 'label': f'two-batches,h={h}'})
     for n in b['coverage']:
         for bits in (8, 16, 32):
             out.append({'cond': 'coverage', 'n': n, 'bits': bits, 'weight': 10 ** n, 'label': f'n={n},int{bits}'})
@@ -312,14 +352,16 @@ def jobs(tier):
 
 
 def run_job(job):
-    return {'dispatch': run_dispatch, 'coverage': run_coverage, 'pairhash': run_pairhash}[job['cond']](job)
+    return {'dispatch': run_dispatch, 'coverage': run_coverage, 'pairhash': run_pairhash, 'two-batches': run_twobatch}[job['cond']](job)
 
 
 def replay(w):
     import numpy as np
-    if w['cond'] == 'dispatch':
+    if w['cond'] in ('dispatch', 'two-batches'):
         try:
-            trip, calls, warn = drive(w['cols'], w['frame'], 'label', w['heur'], w['target_only'])
+            if w['cond'] == 'two-batches':
+                drive(w['cols'], w['frame1'], 'label', w['heur'], w['target_only'], fresh=True)
+            trip, calls, warn = drive(w['cols'], w['frame'], 'label', w['heur'], w['target_only'], fresh=(w['cond'] == 'dispatch'))
         except Exception as e:
             import traceback
             tb = traceback.extract_tb(e.__traceback__)[-1]
@@ -328,7 +370,7 @@ def replay(w):
         probs = check_dispatch(trip, calls, warn, w['cols'], w['frame'], 'label', w['heur'])
         if probs:
             kind = 'not-defined' if 'not defined' in probs[0] else 'score'
-            return {'reproduced': True, 'signature': f'C05:{w["heur"]}:{kind}', 'what': f'heuristic {w["heur"]}, columns {w["cols"]}, frame {w["frame"]}, target_only={w["target_only"]}: {probs[0]}'}
+            return {'reproduced': True, 'signature': f'C05:{w["heur"]}:{kind}' + (':after-another-batch' if w['cond'] == 'two-batches' else ''), 'what': ('second mini-batch in the same process: ' if w['cond'] == 'two-batches' else '') + f'heuristic {w["heur"]}, columns {w["cols"]}, frame {w["frame"]}, target_only={w["target_only"]}: {probs[0]}'}
         return {'reproduced': False, 'what': 'scores equal the heuristic on the coded columns'}
     loader.use_repo_on_syspath()
     from outrank.algorithms.feature_ranking.ranking_cov_alignment import max_pair_coverage
